@@ -45,3 +45,17 @@ contract(VM + "prune", props=["C01", "C08", "C09"],
                         ("vals", "forall(lambda s=Str: implies(s in self, at(self, s) == old(at(self, s))))"),
                         ("all", "forall(lambda s=Str: (s in ALL) == (old(s in self) and old(at(self, s)) == 0))")],
              modifies=["content(self)"])})
+
+contract(VM + "truncate", props=["C08", "C11"],
+         ensures=[("dom", "forall(lambda s=Str: (s in self) == old(s in self))"),
+                  ("truncated", "forall(lambda s=Str: implies(s in self, at(self, s) == q_down(old(at(self, s)), cfg_symbol_info(config, s).precision)))"),
+                  ("configured", "forall(lambda s=Str: implies(s in self, cfg_has_symbol(config, s)))")],
+         raises={"Error!": [("missing", "exists(lambda s=Str: old(s in self) and not cfg_has_symbol(config, s))"),
+                            ("dom", "forall(lambda s=Str: (s in self) == old(s in self))")]},
+         modifies=["content(self)"],
+         loops={0: dict(
+             invariant=[("dom", "forall(lambda s=Str: (s in self) == old(s in self))"),
+                        ("done", "forall(lambda s=Str: implies(s in SEEN, cfg_has_symbol(config, s) and at(self, s) == q_down(old(at(self, s)), cfg_symbol_info(config, s).precision)))"),
+                        ("todo", "forall(lambda s=Str: implies(not (s in SEEN), at(self, s) == old(at(self, s))))"),
+                        ("all", "forall(lambda s=Str: (s in ALL) == old(s in self))")],
+             modifies=["content(self)"])})
